@@ -54,6 +54,8 @@ func checkC20(c *Ctx) {
 	c.Rule("R4", "exactly one outcome counter per completion on every path of each outcome hook")
 	c.Rule("R5", "registration before dispatch: total++ and hook registration adjacent")
 	c.Rule("R6", "gauges are decremented only in release functions that run deferred")
+	c.Rule("R8", "a gauge decremented by a completion hook is incremented before that hook is registered")
+	checkHookGaugesBalanced(c, "R8")
 
 	type pair struct{ gauge, up, down string }
 	pairs := []pair{{"CxActive", "CxTotal", "CxDestroyTotal"}, {"connActive", "connTotal", "connDestroy"}}
@@ -450,4 +452,61 @@ func runsDeferred(p *Prog, fn *ssa.Function, depth int) bool {
 		}
 	}
 	return true
+}
+
+// checkHookGaugesBalanced (C20.R8): a gauge that a completion hook decrements is incremented before the hook can run.
+// The hook runs whenever the request is completed - also by the early returns of the function that registered it
+// (upstream stopped, no connection) - so an increment placed further down, "when the request is really handed over",
+// is skipped on those paths while the decrement is not: the unsigned gauge wraps and is non-zero at quiescence.
+func checkHookGaugesBalanced(c *Ctx, rule string) {
+	p := c.P
+	n := 0
+	for _, rel := range []string{"proc", "proc/redis", "proc/tcp"} {
+		for _, fn := range p.FuncsIn(rel) {
+			if p.isTestFn(fn) {
+				continue
+			}
+			eachInstr(fn, func(_ *ssa.BasicBlock, _ int, in ssa.Instruction) {
+				call, ok := in.(*ssa.Call)
+				if !ok {
+					return
+				}
+				g := calleeFn(call.Common())
+				if g == nil || g.Name() != "RegisterHook" || len(call.Call.Args) < 2 {
+					return
+				}
+				hook := declaredFn(funcValue(call.Call.Args[1]))
+				if hook == nil || hook.Blocks == nil {
+					return
+				}
+				for _, hf := range append([]*ssa.Function{hook}, staticCalleesDeep(hook, 1)...) {
+					if hf.Blocks == nil || !isModFn(hf) {
+						continue
+					}
+					eachInstr(hf, func(_ *ssa.BasicBlock, _ int, x ssa.Instruction) {
+						f, m := counterOp(x)
+						if f == nil || (m != "Dec" && m != "Sub") {
+							return
+						}
+						// metrics only (not the child counter of a split command, not time arithmetic)
+						if sg := calleeFn(callOf(x)); sg == nil || sg.Pkg == nil || !strings.HasSuffix(sg.Pkg.Pkg.Path(), "/stats") {
+							return
+						}
+						n++
+						// the matching increment: same counter, in the registering function, before the registration
+						okInc := false
+						eachInstr(fn, func(_ *ssa.BasicBlock, _ int, y ssa.Instruction) {
+							if f2, m2 := counterOp(y); f2 == f && (m2 == "Inc" || m2 == "Add") && instrDominates(y, call) {
+								okInc = true
+							}
+						})
+						c.Check(okInc, rule, fmt.Sprintf("%s hook#%d: %s is incremented before the hook is registered", fnKey(fn), n, f.Name()), x.Pos(), "the increment dominates the registration of the hook that decrements", "the completion hook decrements gauge "+f.Name()+", but the registering function increments it only later (or not at all): a request that is completed by one of the early returns in between - upstream stopped, connection refused - runs the hook without the increment, the unsigned gauge wraps around and stays non-zero when nothing is in flight")
+					})
+				}
+			})
+		}
+	}
+	if n == 0 {
+		c.OK(rule, "no gauge is decremented by a completion hook", token.NoPos, "nothing to balance")
+	}
 }
